@@ -171,8 +171,9 @@ def entries():
                     ("positive", v(True, False))],
                    data_reg, ["predict"], bad=[("short y", _bad_short_y)]))
     E.append(Entry("KMeansL1L2",
-                   lambda k: M.KMeansL1L2(n_clusters=[2, 3][k], norm=["L1", "L2"][k], n_init=2, random_state=[0, 1][k], max_iter=20),
-                   [("n_clusters", v(2, 3)), ("norm", v("L2", "L1")), ("max_iter", v(10, 30)), ("random_state", v(3, 4)), ("init", v("random", "k-means++"))],
+                   lambda k: M.KMeansL1L2(n_clusters=[2, 3][k], norm=["L1", "L2"][k], n_init=2, random_state=[0, 1][k], max_iter=20,
+                                          init=["random", "k-means++"][k]),
+                   [("n_clusters", v(2, 3)), ("norm", v("L2", "L1")), ("max_iter", v(10, 30)), ("random_state", v(3, 4)), ("init", v("k-means++", "random"))],
                    data_clu, ["predict", "transform"], seed="rs", bad=[("n < k", _bad_too_few)]))
     E.append(Entry("KMeansL1L2[L1,init=array]",
                    lambda k: M.KMeansL1L2(n_clusters=2, norm="L1", n_init=[3, 10][k], max_iter=20,
